@@ -95,13 +95,20 @@ theorem compact_total' {t : Table} (s : Shape t) : ∃ t', t.compact = .ok t' :=
 
 /-! ### `coset_table`: a table, or the row-limit assertion -/
 
+/-- the run of the modelled `coset_table n rels subs` reaches — every earlier step of the main loop
+    having returned `.ok` — a free slot of a live row while the table has `rowLimit` rows or
+    more, i.e. the code's `assert!(n < 100_000)` fires -/
+def LimitHit (n : Nat) (rels subs : List (List Int)) : Prop :=
+  mainLoopHits (expandedRelatorSet rels) subs (rowLimit + 1) 0 (Table.new n)
+
 /-- **totality up to the row limit**: for words over the letters `±1..±n` the modelled
-    `coset_table` never runs out of model fuel (`.err` is impossible) and never panics except
-    through the code's assertion that the table stays below `rowLimit = 100 000` rows — in that
-    case a table satisfying the invariant of the enumeration has reached that many rows -/
+    `coset_table` returns a table, or it returns `.panic` and its own run hits the row-limit
+    assertion (`LimitHit`, defined along the control flow of the main loop).  `.err` (model fuel
+    exhausted) and every other panic branch of the model (index panics of `get`/`set`, a missing
+    number in `compact`, the `scanGo` index check) are unreachable. -/
 theorem cosetTable_total {n : Nat} {rels subs : List (List Int)}
     (hr : ∀ w ∈ rels, ∀ x ∈ w, x ∈ allGensOf n) (hs : ∀ w ∈ subs, ∀ x ∈ w, x ∈ allGensOf n) :
-    (∃ t, cosetTable n rels subs = .ok t) ∨ (cosetTable n rels subs = .panic ∧ Lim n) := by
+    (∃ t, cosetTable n rels subs = .ok t) ∨ (cosetTable n rels subs = .panic ∧ LimitHit n rels subs) := by
   have hR : ∀ w ∈ expandedRelatorSet rels, ∀ x ∈ w, x ∈ allGensOf n :=
     expandedRelatorSet_letters (S := fun x => x ∈ allGensOf n) (fun x hx => neg_mem_allGensOf hx) hr
   have hnew : (Table.new n).allGens = allGensOf n := rfl
@@ -127,5 +134,18 @@ theorem cosetTable_total {n : Nat} {rels subs : List (List Int)}
     exact Or.inl ⟨t3, h3⟩
   · rw [h1]
     exact Or.inr ⟨rfl, hlim⟩
+
+/-- and conversely: the run hits the row-limit assertion exactly when the result is `.panic` -/
+theorem cosetTable_panic_iff {n : Nat} {rels subs : List (List Int)}
+    (hr : ∀ w ∈ rels, ∀ x ∈ w, x ∈ allGensOf n) (hs : ∀ w ∈ subs, ∀ x ∈ w, x ∈ allGensOf n) :
+    cosetTable n rels subs = .panic ↔ LimitHit n rels subs := by
+  constructor
+  · intro h
+    rcases cosetTable_total hr hs with ⟨t, ht⟩ | ⟨_, hl⟩
+    · rw [ht] at h; cases h
+    · exact hl
+  · intro h
+    unfold cosetTable cosetTableRaw
+    rw [mainLoop_panic_of_hits _ _ _ h]
 
 end DSymVerif.CosetInvP
